@@ -10,6 +10,18 @@ def gridP : P Grid := do
   let nf ← nat; let w ← nat; let c ← ints; let cv ← bool
   pure { spec := s, lon := lo, lat := la, nFace := nf, width := w, conn := c, coordVars := cv }
 
+/-- backing of one variable: `0` (numpy) or `1 name chunks(list nat)` (dask) -/
+def backingP : P Backing := do
+  let k ← nat
+  if k == 0 then pure .numpy else do
+    let n ← nat; let c ← nats
+    pure (.dask n c)
+
+/-- a grid followed by the backings of node_lon, node_lat, face_node_connectivity -/
+def bgridP : P BGrid := do
+  let g ← gridP; let x ← backingP; let y ← backingP; let z ← backingP
+  pure { g := g, bLon := x, bLat := y, bConn := z }
+
 def verdict (fl : List String) : String :=
   if fl.isEmpty then "ok" else "fail " ++ ",".intercalate fl
 
@@ -41,6 +53,21 @@ def handle (cmd : String) (args : List Int) : Option String :=
       let m := s!"{encBool (pyEq a (.grid b))} {encBool (pyNe a (.grid b))} {encBool (gridEqAsIs a b)}"
       pure (";".intercalate [ds, verdict (failing a b e1 n1), verdict (failing b a e2 n2),
         verdict (if symmOK e1 e2 then [] else ["eq_symm"]), m])
+  | "C20.bpair" => do
+      -- as `C20.pair`, the grids given with their backing state; two more fields:
+      -- `<gridEqB a b> <gridEqB b a> <namesFaithful a b> <namesFaithful b a>` and `<kind a>+<kind b>`.
+      -- The Spec and the value-level model never see the backing.
+      let (a, b, e1, n1, e2, n2) ← run (do
+        let a ← bgridP; let b ← bgridP
+        let e1 ← bool; let n1 ← bool; let e2 ← bool; let n2 ← bool
+        pure (a, b, e1, n1, e2, n2)) args
+      let d := differing a.g b.g
+      let ds := (if d.isEmpty then "none" else "+".intercalate d) ++
+        (if a.g.coordVars == b.g.coordVars then " coords-same" else " coords-differ")
+      let m := s!"{encBool (pyEq a.g (.grid b.g))} {encBool (pyNe a.g (.grid b.g))} {encBool (gridEqAsIs a.g b.g)}"
+      let bm := s!"{encBool (gridEqB a b)} {encBool (gridEqB b a)} {encBool (namesFaithful a b)} {encBool (namesFaithful b a)}"
+      pure (";".intercalate [ds, verdict (failing a.g b.g e1 n1), verdict (failing b.g a.g e2 n2),
+        verdict (if symmOK e1 e2 then [] else ["eq_symm"]), m, bm, a.kind ++ "+" ++ b.kind])
   | "C20.wf" => do
       let a ← run gridP args
       pure (encBool a.wf)
